@@ -329,7 +329,12 @@ pub fn c05(sc: &Scenario, rr: &RunResult) -> Vec<Violation> {
     let mut out = vec![];
     let completed = rr.outcome.verdict == Verdict::Completed && !rr.rec.hosts.iter().any(|h| h.panicked.is_some());
     let reference = Interp::run(sc);
-    let _ = &reference;
+    out.extend(probe_expectations("C05", sc, rr, &reference));
+    // count windows are the stateful operators whose per-iteration behaviour is fully determined
+    // by the arrival history: all results before the FlushAndRestart, nothing carried over
+    for v in crate::oracle2::c12(sc, rr) {
+        out.push(viol("C05", "stateful/count-window", v.msg));
+    }
     for ((pid, coord), hist) in &rr.rec.probes {
         // automaton for ((Item|Timestamped|Watermark|FlushBatch)* FlushAndRestart)+ Terminate
         let mut fars = 0usize;
@@ -390,6 +395,113 @@ pub fn check(prop: &str, sc: &Scenario, rr: &RunResult) -> Vec<Violation> {
         "C02" => c02(sc, rr),
         "C04" => c04(sc, rr),
         "C05" => c05(sc, rr),
+        "C06" => crate::oracle2::c06(sc, rr),
+        "C12" => crate::oracle2::c12(sc, rr),
+        "C13" => crate::oracle2::c13(sc, rr),
+        "C14" => crate::oracle2::c14(sc, rr),
+        "C16" => crate::oracle2::c16(sc, rr),
+        "C17" => crate::oracle2::c17(sc, rr),
         _ => vec![],
     }
+}
+
+// ------------------------------------------------------------------------------------------
+// generic: what every "out" probe saw, iteration by iteration, against the reference
+// ------------------------------------------------------------------------------------------
+
+/// data elements (id, key, v) seen at a probe, split into iterations by FlushAndRestart, merged
+/// over all replicas
+pub fn probe_iterations(rec: &Recorder, pid: u32) -> Vec<Vec<(u64, u16, i64)>> {
+    let mut iters: Vec<Vec<(u64, u16, i64)>> = Vec::new();
+    for ((p, _c), hist) in &rec.probes {
+        if *p != pid {
+            continue;
+        }
+        let mut i = 0usize;
+        for r in hist {
+            match r.kind {
+                K_ITEM | K_TS => {
+                    while iters.len() <= i {
+                        iters.push(vec![]);
+                    }
+                    iters[i].push((r.id, r.key, r.v));
+                }
+                K_FAR => {
+                    while iters.len() <= i {
+                        iters.push(vec![]);
+                    }
+                    i += 1;
+                }
+                _ => {}
+            }
+        }
+    }
+    for it in iters.iter_mut() {
+        it.sort();
+    }
+    iters
+}
+
+pub fn probe_expectations(prop: &str, sc: &Scenario, rr: &RunResult, reference: &RefResult) -> Vec<Violation> {
+    let mut out = vec![];
+    let completed = rr.outcome.verdict == Verdict::Completed && !rr.rec.hosts.iter().any(|h| h.panicked.is_some());
+    if !completed {
+        return out;
+    }
+    let _ = sc;
+    for m in &rr.meta {
+        if m.pos != "out" {
+            continue;
+        }
+        let Some(exp) = reference.expect.get(&(m.path.clone(), m.out)) else {
+            continue;
+        };
+        let got = probe_iterations(&rr.rec, m.id);
+        // trailing empty iterations carry no information when the reference has none either
+        let n = exp.len().max(got.len());
+        for i in 0..n {
+            let e = exp.get(i);
+            let g = got.get(i).cloned().unwrap_or_default();
+            match e {
+                Some(None) => continue,
+                Some(Some(ev)) => {
+                    let mut want: Vec<(u64, u16, i64)> = ev.iter().map(|e| (e.id, e.key, e.v)).collect();
+                    want.sort();
+                    if want != g {
+                        let gs: BTreeSet<_> = g.iter().collect();
+                        let ws: BTreeSet<_> = want.iter().collect();
+                        let extra: Vec<_> = gs.difference(&ws).take(3).collect();
+                        let missing: Vec<_> = ws.difference(&gs).take(3).collect();
+                        out.push(viol(
+                            prop,
+                            "step-output",
+                            format!(
+                                "probe {} (step path {:?} output {}) iteration {}: saw {} elements, reference has {}; e.g. unexpected {:?}, missing {:?}",
+                                m.id, m.path, m.out, i, g.len(), want.len(), extra, missing
+                            ),
+                        ));
+                        break;
+                    }
+                }
+                None => {
+                    if !g.is_empty() || exp.iter().all(|x| x.is_some()) && i < got.len() && got[i..].iter().any(|x| !x.is_empty()) {
+                        out.push(viol(
+                            prop,
+                            "extra-iteration",
+                            format!("probe {} (step path {:?}): data in iteration {} but the reference has only {} iterations here", m.id, m.path, i, exp.len()),
+                        ));
+                        break;
+                    }
+                }
+            }
+        }
+        if exp.iter().all(|x| x.is_some()) && got.len() > exp.len() + 1 {
+            out.push(viol(
+                prop,
+                "iteration-count",
+                format!("probe {} (step path {:?}): {} iterations observed, reference has {}", m.id, m.path, got.len(), exp.len()),
+            ));
+        }
+    }
+    out
 }
